@@ -243,7 +243,8 @@ def unpack_items(tier):
                ("HarnessUnpackStep", {"K": 1, "sName": 2, "sLink": 1, "sPre": 2}, 12),
                ("HarnessUnpackStep", {"K": 1, "sName": 2, "sLink": 1, "sPre": 1, "nDst": 8}, 20),
                ("HarnessUnpackSafety", {"K": 1, "nName": 2, "nLink": 2, "nDst": 8}, 4),
-               ("HarnessUnpackStep", {"K": 2, "sName": 1, "sLink": 1, "sPre": 1, "preDir": 0}, 20)]
+               ("HarnessUnpackStep", {"K": 2, "sName": 1, "sLink": 1, "sPre": 1, "preDir": 0}, 20),
+               ("HarnessUnpackStep", {"K": 1, "sName": 3, "sLink": 1, "sPre": 1, "preDir": 0}, 12)]
     else:
         seg = [("HarnessUnpackSeg", {"K": 1, "sName": 4, "sLink": 5}, 16), ("HarnessUnpackSeg", {"K": 2, "sName": 3, "sLink": 4}, 16), ("HarnessUnpackSeg", {"K": 3, "sName": 2, "sLink": 3}, 16),
                ("HarnessUnpackStep", {"K": 1, "sName": 4, "sLink": 3, "sPre": 4}, 16), ("HarnessUnpackStep", {"K": 2, "sName": 3, "sLink": 3, "sPre": 3}, 16)]
@@ -866,3 +867,19 @@ CHECKS["C05"]["groups"][0]["thorough"] = list(CHECKS["C05"]["groups"][0]["thorou
     {"id": "pack-N1-deref-menu", "entry": "HarnessPack", "params": {"N": 1, "opts": 1, "linkMenu": 1}, "shards": 2, "_w": 20},
     {"id": "pack-N2-deref-menu", "entry": "HarnessPack", "params": {"N": 2, "opts": 1, "linkMenu": 1}, "shards": 8, "_w": 40}]
 CHECKS["C05"]["bounds"]["quick"] += "; dereferencing: N=1,2 with link targets from a menu of 8 that leave the tree through further links (relative and absolute, to a file, to a directory, at another depth): each such link is shipped as a copy of what it physically points to (file content; files of a directory)"
+CHECKS["C01"]["bounds"]["quick"] += "; inductive step with an entry name of <=3 segments from a destination holding one arbitrary link, next to a directory /w/o a one-byte segment can name"
+for _pid in ("C02", "C05", "C20"):
+    CHECKS[_pid]["bounds"]["quick"] += "; 12 free mode bits per node (permission bits, setuid, setgid, sticky)"
+CHECKS["C03"]["bounds"]["quick"] += "; one of the file names of the walking and bundle layers is not ASCII"
+CHECKS["C04"]["bounds"]["quick"] += "; in the inductive-step items every link entry whose target leaves dst must make Unpack fail, also when the destination already holds that very link"
+for _pid in ("C08", "C09", "C12", "C13", "C14"):
+    CHECKS[_pid]["bounds"]["quick"] += "; the model fetcher rewrites the URL it is handed; package 0 is assembled with MakeRemoteSource and an upper-case host name"
+CHECKS["C10"]["bounds"]["quick"] += "; the rules world optionally holds links to a file outside the bundle inside both kinds of excluded directory"
+CHECKS["C11"]["bounds"]["quick"] += "; final registry base with or without a pre-release tag and build metadata"
+# C20: file sizes as symbolic 64-bit values (sparse files of up to 64 MiB, in the tree and copied in by dereferencing)
+CHECKS["C20"]["groups"][0]["quick"] = list(CHECKS["C20"]["groups"][0]["quick"]) + [
+    {"id": "big-o%d" % o, "entry": "HarnessC20Big", "params": {"opts": o}, "_w": 5} for o in (0, 1, 3)]
+CHECKS["C20"]["groups"][0]["thorough"] = list(CHECKS["C20"]["groups"][0]["thorough"]) + [
+    {"id": "big-o%d" % o, "entry": "HarnessC20Big", "params": {"opts": o}, "_w": 5} for o in (0, 1, 3)]
+CHECKS["C20"]["groups"][0]["reach"] = CHECKS["C20"]["groups"][0]["reach"] + ["big-packed"]
+CHECKS["C20"]["bounds"]["quick"] += "; file sizes as symbolic 64-bit values: one file in the tree and one copied in by dereferencing, each 1 byte of data plus a hole of 0..2^26 bytes (io.Copy / io.CopyBuffer summarised as moving the file's size), 3 option sets"
